@@ -6,14 +6,21 @@ FIRST = {  # outcome of the first confrontation, before any harness was strength
  "C03-1": "missed (exit 0)", "C03-2": "VIOLATION", "C07-1": "missed (exit 0)", "C07-2": "missed (exit 0)",
  "C11-1": "missed (exit 0)", "C11-2": "VIOLATION", "C12-1": "VIOLATION", "C12-2": "missed (exit 0)",
  "C14-1": "missed (exit 0)", "C14-2": "missed (exit 0)", "C16-1": "missed (exit 0)", "C16-2": "missed (exit 0)",
- "C17-1": "exit 3 (harness error: stub assumed two eigvalsh calls)", "C17-2": "VIOLATION"}
+ "C17-1": "exit 3 (harness error: stub assumed two eigvalsh calls)", "C17-2": "VIOLATION",
+ "C04-1": "VIOLATION", "C04-2": "missed (exit 0; needs 5 samples, quick bound was 4)", "C05-1": "VIOLATION", "C05-2": "VIOLATION",
+ "C08-1": "missed (exit 0)", "C08-2": "VIOLATION", "C09-1": "exit 3 (counterexample over the stub not realisable as parameters)", "C09-2": "VIOLATION",
+ "C18-1": "not detected (analyzer clause outside the claimed part)", "C18-2": "not detected (analyzer clause outside the claimed part)",
+ "C19-1": "not detected (mesh mapping outside the claimed part)", "C19-2": "missed (exit 0; field values were assumed positive)"}
 STRENGTHENED = {
  "C01-2": "chunk_local_index is now queried after every chunk (streaming use)", "C02-1": "np facade with isclose in general.py; dyadic counterexample grid down to 2**-30",
  "C03-1": "NaN cases with 3 and 4 NaNs (n = 7, 8)", "C07-1": "multi-point cases with non-ascending node ids", "C07-2": "multi-point cases with a negative load factor",
  "C11-1": "Gassner clause also for curves given for another failure probability with scatter", "C12-2": "range/mean matrix layout whose ranges fall on result class edges",
  "C14-1": "2-D histograms with the target levels in either order", "C14-2": "source histograms with permuted class order", "C16-1": "array-valued components incl. a leading dimension of 3",
- "C17-1": "eigvalsh stub made a function of its argument (independent of the number of calls)"}
-for p in ("C01", "C02", "C03", "C07", "C11", "C12", "C14", "C16", "C17"):
+ "C17-1": "eigvalsh stub made a function of its argument (independent of the number of calls)",
+ "C04-2": "quick bound raised to 5 samples", "C08-1": "curves given for a native failure probability of 10 % queried at the default 50 %",
+ "C09-1": "the auxiliary power values are registered as inputs with monotonicity axioms and mapped back to parameters P_i before the concrete replay (realise)",
+ "C19-2": "field values of any sign"}
+for p in ("C01", "C02", "C03", "C04", "C05", "C07", "C08", "C09", "C11", "C12", "C14", "C16", "C17", "C18", "C19"):
     for k in (1, 2):
         sid = "%s-%d" % (p, k)
         src = "/tmp/seed_%s/SEED/%d" % (p, k)
